@@ -38,6 +38,10 @@ type Env struct {
 	closed bool
 }
 
+// Fingerprint, when set, receives extra observations a scenario wants to be
+// part of a determinism fingerprint (e.g. final entity snapshots).
+var Fingerprint func(tag string, data []byte)
+
 // SkipReset, while true, makes NewLight/NewFull keep akita's process-global
 // state (ID generator, tracing side tables) — used to model "rebuild and
 // restore in the same process".
